@@ -396,6 +396,8 @@ def decisionBudget : List (String × String × Nat) :=
   [("common", "if", 6),
    ("common", "match", 12),
    ("common", "!=", 2),
+   ("common", ".cmp", 18),
+   ("common", ".then", 3),
    ("common", "sml:0", 6),
    ("common", "sml:1", 12),
    ("common", "str:decode CBOR failure: {}", 1),
@@ -431,6 +433,7 @@ def decisionBudget : List (String × String × Nat) :=
    ("header", "<=", 1),
    ("header", ">=", 1),
    ("header", "&&", 9),
+   ("header", ".contains", 2),
    ("header", "sml:0", 3),
    ("header", "sml:1", 4),
    ("header", "lit:16", 1),
@@ -511,6 +514,8 @@ def decisionBudget : List (String × String × Nat) :=
    ("key", "if", 10),
    ("key", "match", 2),
    ("key", "==", 1),
+   ("key", ".contains", 2),
+   ("key", ".cmp", 1),
    ("key", "str:empty array", 1),
    ("key", "str:mandatory kty label", 1),
    ("key", "str:no kty label", 1),
@@ -523,6 +528,7 @@ def decisionBudget : List (String × String × Nat) :=
    ("context", "==", 1),
    ("context", "!=", 3),
    ("context", "&&", 1),
+   ("context", "lt", 1),
    ("context", "sml:0", 3),
    ("context", "sml:1", 3),
    ("context", "sml:2", 4),
@@ -540,12 +546,14 @@ def decisionBudget : List (String × String × Nat) :=
    ("cwt", "<=", 1),
    ("cwt", ">=", 1),
    ("cwt", "&&", 1),
+   ("cwt", ".contains", 1),
    ("cwt", "str:claim() method used to set core claim", 1),
    ("cwt", "str:int/float", 1),
    ("cwt", "str:map", 1),
    ("iana", "if", 1),
    ("iana", "match", 1),
-   ("iana", "==", 1)]
+   ("iana", "==", 1),
+   ("iana", "lt", 4)]
 
 def ianaMacroHash : String := "3986b2136fa3151f"
 
